@@ -3,6 +3,7 @@ package main
 // Path-wise symbolic execution of go/ssa with loop cutting and obligation generation.
 
 import (
+	"os"
 	"fmt"
 	"go/constant"
 	"go/token"
@@ -289,6 +290,13 @@ func (e *Engine) runEntry(init *State) []pathResult {
 			continue
 		}
 		e.steps++
+		if os.Getenv("GOVERIF_TRACESTEPS") != "" && e.steps%997 == 0 {
+			var st []string
+			for _, f := range s.frames {
+				st = append(st, fmt.Sprintf("%s#%d(%s)", f.fn.Name(), f.block.Index, f.block.Comment))
+			}
+			fmt.Fprintf(os.Stderr, "steps=%d stack=%v\n", e.steps, st)
+		}
 		if e.cfg.MaxSteps > 0 && e.steps > e.cfg.MaxSteps {
 			e.fail("step budget exceeded (> %d basic blocks): the function is outside what the path executor can enumerate", e.cfg.MaxSteps)
 		}
